@@ -323,12 +323,13 @@ def still_fails(binpath, oracle, header, lines, pred, tmpdir, tag):
     return pred(po), b
 
 
-def ddmin(binpath, oracle, header, lines, pred, tmpdir, tag, budget=150):
+def ddmin(binpath, oracle, header, lines, pred, tmpdir, tag, budget=150, deadline=None):
+    """ddmin over op lines; stops after `budget` candidate runs or at wall-clock `deadline` (time.time())."""
     ops = [l.split(" => ")[0] for l in lines]
     n = 2
     iters = 0
     best_out = None
-    while len(ops) >= 2 and iters < budget:
+    while len(ops) >= 2 and iters < budget and not (deadline and time.time() > deadline):
         chunk = max(1, len(ops) // n)
         reduced = False
         for i in range(0, len(ops), chunk):
@@ -341,7 +342,7 @@ def ddmin(binpath, oracle, header, lines, pred, tmpdir, tag, budget=150):
                 n = max(n - 1, 2)
                 reduced = True
                 break
-            if iters >= budget:
+            if iters >= budget or (deadline and time.time() > deadline):
                 break
         if not reduced:
             if chunk == 1:
@@ -534,6 +535,11 @@ def check_property(pid, tier, seed, replay=None):
     # -- 5: verdict
     # C: monitor failures on the real code
     seen_viol = set()
+    # shrinking is capped: per driver ("shrink": false / "shrink_budget": n in checks/Cxx.json) and per run
+    # (all ddmin passes of one check share VERIF_SHRINK_S seconds, default 90); what is not shrunk is still
+    # written as a replay, cut at the failing line
+    drv_cfg = {d["name"]: d for d in cfg["drivers"]}
+    shrink_deadline = time.time() + float(os.environ.get("VERIF_SHRINK_S", cfg.get("shrink_total_s", 90)))
     for mn in all_mons:
         k = match_known(known, pid, mn)
         if k:
@@ -547,8 +553,12 @@ def check_property(pid, tier, seed, replay=None):
         name, cls = mn["name"], mn["class"]
         pred = lambda po, name=name, cls=cls: any(m["name"] == name and m["class"] == cls for m in po["mons"])
         lines = lines[:mn["line"]] if mn["line"] > 0 else lines
-        if replay is None and lines:
-            lines = ddmin(mn["_bin"], mn["_oracle"], hdr, lines, pred, rundir, "mon")
+        dc = drv_cfg.get(mn["driver"], {})
+        if dc.get("ops_independent") and lines:
+            lines = lines[-1:]      # every op line is a self-contained scenario: the failing line is the replay
+        if replay is None and lines and dc.get("shrink", True) and time.time() < shrink_deadline:
+            lines = ddmin(mn["_bin"], mn["_oracle"], hdr, lines, pred, rundir, "mon",
+                          budget=dc.get("shrink_budget", 150), deadline=shrink_deadline)
         rp = os.path.join(ROOT, "replays", f"{pid}-{seed}-{mn['driver']}-{name}.ops")
         write_case(rp, hdr, lines, comments=[f"property {pid}: monitor {name} (class {cls}) failed on the implementation's behaviour",
                                               f"detail: {mn['detail']}", f"replay: ./check {pid} --replay {os.path.relpath(rp, ROOT)}"])
@@ -558,8 +568,10 @@ def check_property(pid, tier, seed, replay=None):
         df = all_diffs[0]
         cn, hdr, lines = df["_case"] if df["_case"] else ("?", "# case ? seed 0 driver " + df["driver"], [])
         lines = lines[:df["line"]]
-        if replay is None and lines:
-            lines = ddmin(df["_bin"], df["_oracle"], hdr, lines, lambda po: len(po["diffs"]) > 0, rundir, "diff")
+        dc = drv_cfg.get(df["driver"], {})
+        if replay is None and lines and dc.get("shrink", True) and time.time() < shrink_deadline:
+            lines = ddmin(df["_bin"], df["_oracle"], hdr, lines, lambda po: len(po["diffs"]) > 0, rundir, "diff",
+                          budget=dc.get("shrink_budget", 150), deadline=shrink_deadline)
         rp = os.path.join(ROOT, "replays", f"{pid}-{seed}-{df['driver']}-corr.ops")
         write_case(rp, hdr, lines, comments=[f"property {pid}: correspondence broken in driver {df['driver']}: model and implementation disagree",
                                               f"op: {df['op']}", f"impl: {df['impl']}", f"model: {df['model']}",
